@@ -107,7 +107,7 @@ def plain(sx, B):
            anchors=["polyply.src.simple_seq_parsers:parse_ig", "polyply.src.simple_seq_parsers:parse_fasta",
                     "polyply.src.simple_seq_parsers:_parse_plain_delimited", "polyply.src.simple_seq_parsers:_identify_residues",
                     "polyply.src.meta_molecule:MetaMolecule.from_sequence_file"],
-           rejects=(), selector_only=True, must_cover=["ig linear", "ig circular", "fasta", "txt"],
+           rejects=(), selector_only=True, must_cover=["ig linear", "ig circular", "fasta", "txt", "protein sequence spelling DNA/RNA"],
            outside=[".txt files with blank lines or several spaces between names (the statement restricts .txt to single-space separated)",
                     "more than one sequence per file", "circular sequences shorter than 3"],
            bounds={"quick": dict(nmax=3, alpha=list("ACGTV"), names=["PEO", "PS", "A"]),
@@ -130,7 +130,15 @@ def files(sx, B):
             check_linear_graph(sx, m, names, what=repr(text))
             return
         kind = sx.sel("kind", ["DNA", "RNA", "PROTEIN"])
-        letters = [sx.sel("c%d" % i, B["alpha"]) for i in range(n)]
+        word = sx.sel("protein_word", [None, "DNA", "RNA", "GRNAD"]) if kind == "PROTEIN" else None
+        if word is not None:
+            # a protein sequence whose letters happen to spell the keyword of another molecule kind
+            letters = list(word)
+            cut = min(cut, len(letters) - 1)
+            n = len(letters)
+            sx.cover("protein sequence spelling DNA/RNA")
+        else:
+            letters = [sx.sel("c%d" % i, B["alpha"]) for i in range(n)]
         s = "".join(letters)
         body = (s[:cut] + "\n" + s[cut:]) if cut else s
         if fmt == "ig":
@@ -186,9 +194,9 @@ def _tree_edges(b, levels):
            anchors=["polyply.src.gen_seq:gen_seq", "polyply.src.gen_seq:generate_seq_graph", "polyply.src.gen_seq:_add_edges",
                     "polyply.src.gen_seq:_apply_termini_modifications", "polyply.src.gen_seq:_tag_nodes",
                     "polyply.src.gen_seq:_branched_graph", "polyply.src.simple_seq_parsers:parse_json"],
-           rejects=(), selector_only=True, must_cover=["read back", "connect", "termini", "tag"],
+           rejects=(), selector_only=True, must_cover=["read back", "connect", "termini", "tag", "connect record with two pairs"],
            outside=["residue mixes with probabilities below 1 (statistical)", "macros from files", "more than 3 macros in a sequence"],
-           bounds={"quick": dict(levels=(1, 2), bf=(1, 2), seqlen=2), "thorough": dict(levels=(1, 3), bf=(1, 2), seqlen=3)},
+           bounds={"quick": dict(levels=(1, 2), bf=(1, 2), seqlen=2), "thorough": dict(levels=(1, 3), bf=(1, 2), seqlen=2)},
            budget={"quick": 200, "thorough": 1500})
 def genseq(sx, B):
     """Real gen_seq (MacroString, _branched_graph, generate_seq_graph, _add_edges, _apply_termini_modifications, _tag_nodes) writes
@@ -218,8 +226,16 @@ def genseq(sx, B):
         if sx.sel("connect%d" % i, [True, False]):
             a = int(sx.int("ca%d" % i, 0, offs[i][1] - 1))
             c = int(sx.int("cb%d" % i, 0, offs[i + 1][1] - 1))
-            connects.append("%d:%d:%d-%d" % (i, i + 1, a, c))
+            rec = "%d:%d:%d-%d" % (i, i + 1, a, c)
             edges.add(frozenset((offs[i][0] + a, offs[i + 1][0] + c)))
+            if sx.sel("second_pair%d" % i, [False, True]):
+                # one connect record may list several residue pairs
+                a2 = int(sx.int("ca2_%d" % i, 0, offs[i][1] - 1))
+                c2 = int(sx.int("cb2_%d" % i, 0, offs[i + 1][1] - 1))
+                rec += ",%d-%d" % (a2, c2)
+                edges.add(frozenset((offs[i][0] + a2, offs[i + 1][0] + c2)))
+                sx.cover("connect record with two pairs")
+            connects.append(rec)
             sx.cover("connect")
     mods = []
     if sx.sel("termini", [False, True]):
